@@ -505,7 +505,7 @@ class ResetFieldStmt(Nonterm):
     # RESET field
     def reduce_RESET_IDENT(self, *kids):
         self.val = qlast.SetField(
-            name=kids[1].val.lower(),
+            name=kids[1].clean_value.lower(),
             value=None,
         )
 
